@@ -94,10 +94,10 @@ End Final.
 Lemma no_write_after_completed_refuted_proof :
   exists acts st, run hist_a flt0 wres0 bad0 hb0 init acts = Some st /\ ~ no_write_after_completed (chron st).
 Proof.
-  exists wit_a. destruct (run hist_a flt0 wres0 bad0 hb0 init wit_a) as [st|] eqn:E; [|vm_compute in E; discriminate].
-  exists st. split; auto. intros H. apply no_write_after_completed_b_ok in H.
-  assert (no_write_after_completed_b (obs_of (run hist_a flt0 wres0 bad0 hb0 init wit_a)) = false) by (vm_compute; reflexivity).
-  rewrite E in H0. simpl in H0. unfold chron in H. congruence.
+  assert (H : exists st, run hist_a flt0 wres0 bad0 hb0 init wit_a = Some st /\ no_write_after_completed_b (chron st) = false).
+  { eexists. split; [vm_compute; reflexivity|vm_compute; reflexivity]. }
+  destruct H as [st [H1 H2]]. exists wit_a, st. split; auto.
+  intros H. apply no_write_after_completed_b_ok in H. congruence.
 Qed.
 
 (* ---- examples: the hypotheses of the theorems are met by non-trivial runs ---- *)
@@ -105,11 +105,4 @@ Lemma example_run_proof :
   exists st, run fixed flt0 wres0 bad0 hb0 init ex_run = Some st /\
     threads st = [] /\ writes_of 1 (chron st) = [7] /\ writes_of 2 (chron st) = [7; 8] /\
     acc bad0 1 (chron st) = [7] /\ acc bad0 2 (chron st) = [7; 8] /\ closes (chron st) = [1; 2].
-Proof.
-  destruct (run fixed flt0 wres0 bad0 hb0 init ex_run) as [st|] eqn:E; [|vm_compute in E; discriminate].
-  exists st. split; auto.
-  assert (Hl : log st = rev (obs_of (run fixed flt0 wres0 bad0 hb0 init ex_run))) by (rewrite E; simpl; rewrite rev_involutive; auto).
-  assert (Ht : length (threads st) = thr_of (run fixed flt0 wres0 bad0 hb0 init ex_run)) by (rewrite E; auto).
-  unfold chron. rewrite Hl, rev_involutive. vm_compute in Ht. destruct (threads st); [|discriminate].
-  repeat split; vm_compute; reflexivity.
-Qed.
+Proof. eexists. split; [vm_compute; reflexivity|]. repeat split; vm_compute; reflexivity. Qed.
